@@ -1248,3 +1248,8 @@ PROPS["C01"]["claim"] = PROPS["C01"]["claim"] + " Table reads prefer the log vie
 # ---------------------------------------------------------------- U23 extension: a batch that makes the tree lose two levels (seed R5-C14-2)
 M_BTTREE.harnesses.append(H("u23_two_collapses_in_one_batch", "U23", kind="bounded", shape="BTree::write_sorted_changes, two changes, the root collapses after each of them", bound="two collapses in one batch; Node::change / need_remove_root / write_plan_remove_node by contract"))
 PROPS["C14"]["claim"] = PROPS["C14"]["claim"] + " A batch that makes a btree lose several levels releases every root node it empties, each exactly once (Kani, bounded: two collapses in one write_sorted_changes call)."
+
+# ---------------------------------------------------------------- U49 extension: the current uniform-key format hashes the whole key (seed R6-C01-2)
+for _n in (33, 40):
+    M_COLUMN.harnesses.append(H("u49_hash_key_hashes_whole_key_len%d" % _n, "U49", kind="bounded", tiers=("quick", "thorough") if _n == 33 else ("thorough",), shape="hash_key on a uniform column (current version), key of %d arbitrary bytes: what is handed to SipHash" % _n, bound="key lengths 33, 40; SipHasher13::write by recorder"))
+PROPS["C01"]["claim"] = PROPS["C01"]["claim"] + " The current uniform-key format feeds the whole key to the keyed hash, in order (Kani, bounded lengths 33 / 40; SipHasher13::write by recorder): keys that agree on their first 32 bytes are not forced onto one internal key."
